@@ -410,9 +410,11 @@ func runOne(t *testing.T, sc scenario, ch *sched.Chooser) (res sched.Result) {
 		}
 		sort.Strings(oc)
 		sort.Strings(retIDs)
-		res = sched.Result{Violation: viol, Key: key, Outcome: fmt.Sprintf("ret=%v err=%v|%v|ticks=%d", retIDs, retErr != nil, oc, ticks), Trace: append(trace, canon...)}
 		cancel(nil)
-		e.Teardown()
+		if leaked := sched.ShimLeaks(e.Teardown()); len(leaked) > 0 {
+			fail("leak", "goroutines of the code under test are still blocked for ever after everything was cancelled/stopped: %v", leaked)
+		}
+		res = sched.Result{Violation: viol, Key: key, Outcome: fmt.Sprintf("ret=%v err=%v|%v|ticks=%d", retIDs, retErr != nil, oc, ticks), Trace: append(trace, canon...)}
 	})
 	return
 }
@@ -686,9 +688,11 @@ func runMulti(t *testing.T, sc mscen, ch *sched.Chooser) (res sched.Result) {
 		}
 		sort.Strings(oc)
 		sort.Strings(out)
-		res = sched.Result{Violation: viol, Key: key, Outcome: fmt.Sprintf("ret=%v err=%v|%v", out, retErr != nil, oc), Trace: append(trace, canon...)}
 		cancel(nil)
-		e.Teardown()
+		if leaked := sched.ShimLeaks(e.Teardown()); len(leaked) > 0 {
+			fail("leak", "goroutines of the code under test are still blocked for ever after everything was cancelled/stopped: %v", leaked)
+		}
+		res = sched.Result{Violation: viol, Key: key, Outcome: fmt.Sprintf("ret=%v err=%v|%v", out, retErr != nil, oc), Trace: append(trace, canon...)}
 	})
 	return
 }
